@@ -29,7 +29,7 @@ CFG = {
     "deep1": dict(RowTemps={100, 200, 300, 400}, MaxRows=4, CPVals={0, 1, 2},
                   ReqTemps={40, 80, 140, 230, 270, 300, 450, 520}, MaxReq=3, MaxReq2=1, MaxCalls=1),
     "deep2": dict(RowTemps={100, 200, 300, 400, 500}, MaxRows=3, CPVals={1, 2},
-                  ReqTemps={40, 80, 140, 230, 270, 300, 550, 620}, MaxReq=2, MaxReq2=2, MaxCalls=3),
+                  ReqTemps={40, 80, 140, 230, 270, 300, 550, 620}, MaxReq=2, MaxReq2=1, MaxCalls=3),
     "tiny": dict(RowTemps={100, 200, 300}, MaxRows=3, CPVals={0, 1, 2},
                  ReqTemps={40, 80, 140, 230, 270, 300, 450, 520}, MaxReq=2, MaxReq2=1, MaxCalls=1),
 }
